@@ -171,8 +171,14 @@ pub fn gen_case(r: &mut Rng, tier: Tier) -> Case {
         items.push(("home_address".into(), twin.clone()));
         items.push(("work_address".into(), twin));
     }
+    // now and then nothing to disclose at all (only the always-visible claims, or paths that name nothing): no salt is needed,
+    // and the second and third issuance then run with an EMPTY queue
+    let nothing = !deep && !repeats && r.chance(1, 12);
+    if nothing {
+        items.retain(|(k, _)| ["iss", "iat", "exp"].contains(&k.as_str()));
+    }
     let claims = Value::Object(items.into_iter().collect());
-    let strategy = if deep { Strategy::All } else if custom {
+    let strategy = if nothing { match r.below(4) { 0 => Strategy::All, 1 => Strategy::Top, 2 => Strategy::Custom(vec![]), _ => Strategy::Custom(vec!["$.nothing.here".into()]) } } else if deep { Strategy::All } else if custom {
         loop {
             let s = gen_strategy(r, &claims, true);
             if matches!(s, Strategy::Custom(_)) {
@@ -224,7 +230,7 @@ pub fn gen_case(r: &mut Rng, tier: Tier) -> Case {
             }
         }
     }
-    let extra = if r.chance(1, 2) { 0 } else { r.range(1, 3) };
+    let extra = if nothing || r.chance(1, 2) { 0 } else { r.range(1, 3) };
     Case { args: IssueArgs { claims, strategy, holder, decoy: r.chance(1, 4), fmt, key, alg, queue: Some(queue) }, extra }
 }
 
